@@ -111,6 +111,7 @@ type vfSession struct {
 	childRaw  bytes.Buffer // everything the child printed on stdout
 	exitCode  int
 	dials     atomic.Int32
+	c2sFail   func() bool // when set and true, the client's writes towards the server return an error
 }
 
 func vfNewSession(o vfSessOpts) *vfSession {
@@ -132,7 +133,7 @@ func vfNewSession(o vfSessOpts) *vfSession {
 	if o.Columns == 0 {
 		o.Columns = 100
 	}
-	var serverIn io.WriteCloser = s.c2s
+	var serverIn io.WriteCloser = &vfFailableWriter{s: s}
 	var serverOut io.Reader = s.srvOut
 	// relay hops sit between the filter and the wire: filter <-> relay_n ... relay_1 <-> wire <-> server
 	for i := 0; i < o.Relays; i++ {
@@ -199,6 +200,18 @@ func (c *vfTapConn) Read(p []byte) (int, error) {
 	}
 	return n, err
 }
+
+// vfFailableWriter is the client's connection towards the server; the harness can make it return errors.
+type vfFailableWriter struct{ s *vfSession }
+
+func (w *vfFailableWriter) Write(p []byte) (int, error) {
+	if f := w.s.c2sFail; f != nil && f() {
+		return 0, fmt.Errorf("injected connection write error")
+	}
+	return w.s.c2s.Write(p)
+}
+
+func (w *vfFailableWriter) Close() error { return nil }
 
 type vfFeedWriter struct{ r *vfFeedReader }
 
